@@ -3,14 +3,19 @@ Proofs/RxGnfaGlue.lean — glue between C12 (state elimination, `Spec/GnfaRx.lea
 the parser obligation `C12_parser_full` that C12 leaves open is discharged by the C10 theorems
 for `compile s := language of NFA.from_regex(s)` (model `fromRegex s none`).
 
-One caveat, visible in the statement: C12's literal predicate `IsLit` uses `pyIsSpace`, which
-lists the white-space characters up to U+00A0 only; Python's `\s` (our `isPySpace`) also contains
-U+1680, U+2000–U+200A, U+2028, U+2029, U+202F, U+205F, U+3000, which the real lexer rejects with
-`LexerError`.  The theorem therefore assumes that no character of the string is one of those
-(`pyIsSpace c = false → isPySpace c = false`); with `pyIsSpace` completed the hypothesis is void.
+`translate` / `parser_of_C10` carry the hypothesis `pyIsSpace c = false → isPySpace c = false` from
+the time when C12's `pyIsSpace` listed the white-space characters up to U+00A0 only; the two
+predicates are the same function now (`pyIsSpace_eq_isPySpace := rfl` in Props/C12b.lean), so the
+hypothesis is void and `C12_parser_full_holds` discharges it.
+
+The second half of the file is the explicit-alphabet form (`NFA.from_regex(s, input_symbols=Σ)`):
+`lits_tr` (the literals of the tree occur in the string), `compile_explicit` (from `C10_compile`;
+`hres` follows from `IsLit`, `hlits` from the character invariant of Proofs/GnfaAlphabet.lean) and
+`fromRegex_nil_explicit`.
 -/
 import AutomataVerif.Props.C10
 import AutomataVerif.Spec.GnfaRx
+import AutomataVerif.Proofs.GnfaAlphabet
 
 namespace AV.Rx.GnfaGlue
 open AV AV.Rx
@@ -141,5 +146,90 @@ theorem parser_of_C10 :
   ext w
   show N.accepts w = true ↔ _
   rw [hacc, den_tr]
+
+/-! ### explicit alphabet: `NFA.from_regex(s, input_symbols=Σ)` -/
+
+/-- The literals of the C10 tree of a rendered expression occur in the string, and are literal
+characters. -/
+theorem lits_tr {lvl : GnfaSpec.Lvl} {e : GnfaSpec.Rx} {s : List Char}
+    (h : GnfaSpec.Renders lvl e s) : ∀ a ∈ (tr e).lits, a ∈ s ∧ GnfaSpec.IsLit a := by
+  induction h with
+  | @sym c hc =>
+    intro a ha
+    simp only [tr, Rx.lits, List.mem_cons, List.not_mem_nil, or_false] at ha
+    subst ha
+    exact ⟨by simp, hc⟩
+  | emp => intro a ha; simp [tr, Rx.lits] at ha
+  | paren _ ih =>
+    intro a ha
+    obtain ⟨h1, h2⟩ := ih a ha
+    exact ⟨by simp [h1], h2⟩
+  | star _ ih =>
+    intro a ha
+    obtain ⟨h1, h2⟩ := ih a (by simpa only [tr, Rx.lits] using ha)
+    exact ⟨by simp [h1], h2⟩
+  | opt _ ih =>
+    intro a ha
+    obtain ⟨h1, h2⟩ := ih a (by simpa only [tr, Rx.lits] using ha)
+    exact ⟨by simp [h1], h2⟩
+  | ofP _ ih => exact ih
+  | cat _ _ ih1 ih2 =>
+    intro a ha
+    simp only [tr, Rx.lits, List.mem_append] at ha
+    rcases ha with ha | ha
+    · obtain ⟨h1, h2⟩ := ih1 a ha
+      exact ⟨by simp [h1], h2⟩
+    · obtain ⟨h1, h2⟩ := ih2 a ha
+      exact ⟨by simp [h1], h2⟩
+  | ofC _ ih => exact ih
+  | union _ _ ih1 ih2 =>
+    intro a ha
+    simp only [tr, Rx.lits, List.mem_append] at ha
+    rcases ha with ha | ha
+    · obtain ⟨h1, h2⟩ := ih1 a ha
+      exact ⟨by simp [h1], h2⟩
+    · obtain ⟨h1, h2⟩ := ih2 a ha
+      exact ⟨by simp [h1], h2⟩
+
+theorem isReserved_of_isLit {c : Char} (h : GnfaSpec.IsLit c) : isReserved c = false :=
+  (symChar_of_isLit h (fun h => h)).2
+
+/-- **The parser obligation with the source alphabet**: a string of C12's concrete syntax whose
+characters are symbols of `Σ` or operator characters compiles with
+`NFA.from_regex(s, input_symbols=Σ)` — `Σ` made of literal characters — to a valid NFA for the
+language of the expression it renders (from `C10_compile`). -/
+theorem compile_explicit {e : GnfaSpec.Rx} {s : List Char} (hr : GnfaSpec.Renders .U e s)
+    (syms : List Char) (hlit : ∀ a ∈ syms, GnfaSpec.IsLit a)
+    (hch : GNFA.Alphabet.Chars syms s) :
+    ∃ N, fromRegex s (some syms) = .ok N ∧ N.validate = .ok () ∧
+      ∀ w, N.accepts w = true ↔ w ∈ e.den := by
+  obtain ⟨ts, hrend, hg⟩ := translate hr (fun _ _ h => h)
+  have hres : ∀ c ∈ syms, isReserved c = false := fun c hc => isReserved_of_isLit (hlit c hc)
+  have hlits : ∀ a ∈ (tr e).lits, a ∈ syms := by
+    intro a ha
+    obtain ⟨hmem, hl⟩ := lits_tr hr a ha
+    rcases List.mem_append.mp (hch a hmem) with h | h
+    · exact h
+    · obtain ⟨h1, h2, h3, h4, h5⟩ := hl.ne
+      simp only [List.mem_cons, List.not_mem_nil, or_false] at h
+      rcases h with h | h | h | h | h <;> contradiction
+  obtain ⟨N, hN, hv, hacc⟩ := AV.Props.C10.C10_compile hrend hg syms hres hlits
+  exact ⟨N, hN, hv, fun w => by rw [hacc, den_tr]⟩
+
+/-- The empty string with an explicit alphabet: the one-state NFA for `{ε}`. -/
+theorem fromRegex_nil_explicit (syms : List Char) (hres : ∀ c ∈ syms, isReserved c = false) :
+    ∃ N, fromRegex [] (some syms) = .ok N ∧ N.validate = .ok () ∧
+      ∀ w, N.accepts w = true ↔ w = [] := by
+  obtain ⟨i, hl⟩ := Builder.eps_spec (α := Char) 0
+  have hv := Builder.toNFA_valid (syms := syms) i (Builder.rows_eps 0)
+    (Builder.syms_eps (fun x => x ∈ syms) 0)
+  have hany : syms.any isReserved = false := by
+    rw [List.any_eq_false]
+    intro c hc
+    simp [hres c hc]
+  refine ⟨(Builder.fromStringLiteral ([] : List Char) 0).1.toNFA syms, ?_, hv, fun w => ?_⟩
+  · unfold fromRegex parseRegex
+    simp only [hany, Bool.false_eq_true, List.isEmpty_nil, if_true, if_false, hv]
+  · rw [toNFA_accepts_iff _ _ hv, hl]
 
 end AV.Rx.GnfaGlue
